@@ -1,3 +1,312 @@
+/-
+Proofs for Properties/C03.lean: the dictionary algebra `diffCells` of
+VersionParserIterator.next (added / updated / deleted classification and replay).
+-/
 import SqliteDissect.Model.History
+import SqliteDissect.Proofs.HistoryDefs
+
 namespace SqliteDissect.Proofs.History
+open SqliteDissect SqliteDissect.Model SqliteDissect.Properties.C03
+
+abbrev Dict := List (List Nat × Cell)
+
+/-! ### the named sub-lists of `diffCells true` -/
+
+/-- cells whose key is not current (`added` before the update split) -/
+def newL (cur cells : Dict) : Dict := cells.filter fun e => ¬ cur.any (·.1 = e.1)
+/-- current cells whose key vanished (`deleted` before the update split) -/
+def goneL (cur cells : Dict) : Dict := cur.filter fun e => ¬ cells.any (·.1 = e.1)
+def updRowids (cur cells : Dict) : List (Option Int) :=
+  ((goneL cur cells).filter fun d => ((newL cur cells).map (·.2.rowid)).contains d.2.rowid).map (·.2.rowid)
+def updatedL (cur cells : Dict) : Dict :=
+  (newL cur cells).filter fun a => (updRowids cur cells).contains a.2.rowid
+def deletedL (cur cells : Dict) : Dict :=
+  (goneL cur cells).filter fun d => ¬ (updRowids cur cells).contains d.2.rowid
+def addedL (cur cells : Dict) : Dict :=
+  (newL cur cells).filter fun a => ¬ (updatedL cur cells).any (·.1 = a.1)
+
+theorem diffCells_true (cur cells : Dict) :
+    diffCells true cur cells =
+      ((addedL cur cells).map (·.2), (updatedL cur cells).map (·.2), (deletedL cur cells).map (·.2)) := rfl
+
+theorem mem_newL {cur cells : Dict} {e : List Nat × Cell} :
+    e ∈ newL cur cells ↔ e ∈ cells ∧ ∀ x ∈ cur, x.1 ≠ e.1 := by
+  simp [newL]
+
+theorem mem_goneL {cur cells : Dict} {e : List Nat × Cell} :
+    e ∈ goneL cur cells ↔ e ∈ cur ∧ ∀ x ∈ cells, x.1 ≠ e.1 := by
+  simp [goneL]
+
+theorem mem_updRowids {cur cells : Dict} {r : Option Int} :
+    r ∈ updRowids cur cells ↔
+      (∃ g ∈ goneL cur cells, g.2.rowid = r) ∧ (∃ n ∈ newL cur cells, n.2.rowid = r) := by
+  simp only [updRowids, List.mem_map, List.mem_filter, List.contains_iff_mem]
+  constructor
+  · rintro ⟨g, ⟨hg, n, hn, hnr⟩, rfl⟩
+    exact ⟨⟨g, hg, rfl⟩, ⟨n, hn, hnr⟩⟩
+  · rintro ⟨⟨g, hg, rfl⟩, ⟨n, hn, hnr⟩⟩
+    exact ⟨g, ⟨hg, n, hn, hnr⟩, rfl⟩
+
+theorem mem_updatedL {cur cells : Dict} {e : List Nat × Cell} :
+    e ∈ updatedL cur cells ↔ e ∈ newL cur cells ∧ ∃ g ∈ goneL cur cells, g.2.rowid = e.2.rowid := by
+  simp only [updatedL, List.mem_filter, List.contains_iff_mem, mem_updRowids]
+  constructor
+  · rintro ⟨he, hg, _⟩; exact ⟨he, hg⟩
+  · rintro ⟨he, hg⟩; exact ⟨he, hg, e, he, rfl⟩
+
+theorem mem_deletedL {cur cells : Dict} {e : List Nat × Cell} :
+    e ∈ deletedL cur cells ↔ e ∈ goneL cur cells ∧ ∀ n ∈ newL cur cells, n.2.rowid ≠ e.2.rowid := by
+  simp only [deletedL, List.mem_filter, List.contains_iff_mem, mem_updRowids, decide_eq_true_eq]
+  constructor
+  · rintro ⟨he, h⟩
+    refine ⟨he, fun n hn hnr => h ⟨⟨e, he, rfl⟩, ⟨n, hn, hnr⟩⟩⟩
+  · rintro ⟨he, h⟩
+    refine ⟨he, ?_⟩
+    rintro ⟨_, n, hn, hnr⟩
+    exact h n hn hnr
+
+theorem mem_addedL {cur cells : Dict} {e : List Nat × Cell} :
+    e ∈ addedL cur cells ↔ e ∈ newL cur cells ∧ ∀ u ∈ updatedL cur cells, u.1 ≠ e.1 := by
+  simp [addedL]
+
+
+/-! ### generic list facts -/
+
+theorem not_any_key {l : Dict} {k : List Nat} :
+    (¬ l.any (fun x => x.1 = k) = true) ↔ ∀ x ∈ l, x.1 ≠ k := by
+  simp only [List.any_eq_true, decide_eq_true_eq, not_exists, not_and, ne_eq]
+
+theorem inj_of_nodup_map {α β : Type} (f : α → β) :
+    ∀ {l : List α}, (l.map f).Nodup → ∀ a ∈ l, ∀ b ∈ l, f a = f b → a = b
+  | [], _, a, ha, _, _, _ => by cases ha
+  | x :: xs, h, a, ha, b, hb, hab => by
+    rw [List.map_cons, List.nodup_cons] at h
+    rcases List.mem_cons.1 ha with rfl | ha'
+    · rcases List.mem_cons.1 hb with rfl | hb'
+      · rfl
+      · exact absurd (hab ▸ List.mem_map_of_mem (f := f) hb') h.1
+    · rcases List.mem_cons.1 hb with rfl | hb'
+      · exact absurd (hab ▸ List.mem_map_of_mem (f := f) ha') h.1
+      · exact inj_of_nodup_map f h.2 a ha' b hb' hab
+
+theorem find?_eq_some_of_unique {α : Type} {p : α → Bool} {l : List α} {c : α}
+    (hc : c ∈ l) (hp : p c = true) (hu : ∀ x ∈ l, p x = true → x = c) : l.find? p = some c := by
+  cases h : l.find? p with
+  | none => exact absurd hp (by simpa using List.find?_eq_none.1 h c hc)
+  | some x => rw [hu x (List.mem_of_find?_eq_some h) (List.find?_some h)]
+
+/-! ### `stateOf` -/
+
+theorem stateOf_eq_none {l : Dict} {r : Int} :
+    stateOf l r = none ↔ ∀ e ∈ l, e.2.rowid ≠ some r := by
+  simp [stateOf, List.find?_eq_none]
+
+theorem stateOf_some_mem {l : Dict} {r : Int} {c : Cell} (h : stateOf l r = some c) :
+    ∃ e ∈ l, e.2 = c ∧ e.2.rowid = some r := by
+  simp only [stateOf, Option.map_eq_some_iff] at h
+  obtain ⟨e, he, rfl⟩ := h
+  exact ⟨e, List.mem_of_find?_eq_some he, rfl, by simpa using List.find?_some he⟩
+
+theorem stateOf_eq_some {l : Dict} (hl : DictOK l) {r : Int} {e : List Nat × Cell}
+    (he : e ∈ l) (hr : e.2.rowid = some r) : stateOf l r = some e.2 := by
+  have : l.find? (fun e => e.2.rowid = some r) = some e := by
+    apply find?_eq_some_of_unique he (by simpa using hr)
+    intro x hx hxr
+    exact inj_of_nodup_map _ hl.rowids_nodup x hx e he (by rw [hr]; simpa using hxr)
+  simp [stateOf, this]
+
+/-! ### the C03 theorems -/
+
+theorem new_split {cur cells : Dict} (hn : DictOK cells) {e : List Nat × Cell}
+    (he : e ∈ newL cur cells) : e ∈ addedL cur cells ∨ e ∈ updatedL cur cells := by
+  by_cases hu : e ∈ updatedL cur cells
+  · exact Or.inr hu
+  · refine Or.inl (mem_addedL.2 ⟨he, fun u huL hk => hu ?_⟩)
+    have := inj_of_nodup_map _ hn.keys_nodup u (mem_newL.1 (mem_updatedL.1 huL).1).1 e (mem_newL.1 he).1 hk
+    exact this ▸ huL
+
+theorem reported_exactly_new (cur cells : Dict) (hn : DictOK cells) (c : Cell) :
+    (c ∈ (diffCells true cur cells).1 ∨ c ∈ (diffCells true cur cells).2.1) ↔
+      (∃ e ∈ cells, e.2 = c ∧ ¬ cur.any (fun x => x.1 = e.1)) := by
+  rw [diffCells_true]
+  simp only [List.mem_map]
+  constructor
+  · rintro (⟨e, he, rfl⟩ | ⟨e, he, rfl⟩)
+    · have := mem_newL.1 (mem_addedL.1 he).1
+      exact ⟨e, this.1, rfl, not_any_key.2 this.2⟩
+    · have := mem_newL.1 (mem_updatedL.1 he).1
+      exact ⟨e, this.1, rfl, not_any_key.2 this.2⟩
+  · rintro ⟨e, he, rfl, hk⟩
+    have : e ∈ newL cur cells := mem_newL.2 ⟨he, not_any_key.1 hk⟩
+    rcases new_split hn this with h | h
+    · exact Or.inl ⟨e, h, rfl⟩
+    · exact Or.inr ⟨e, h, rfl⟩
+
+theorem added_updated_disjoint (cur cells : Dict) (hn : DictOK cells) (c : Cell) :
+    ¬ (c ∈ (diffCells true cur cells).1 ∧ c ∈ (diffCells true cur cells).2.1) := by
+  rw [diffCells_true]
+  simp only [List.mem_map]
+  rintro ⟨⟨a, ha, rfl⟩, ⟨u, hu, hua⟩⟩
+  have ha' := mem_addedL.1 ha
+  apply ha'.2 u hu
+  rw [hn.key_is_digest u (mem_newL.1 (mem_updatedL.1 hu).1).1,
+    hn.key_is_digest a (mem_newL.1 ha'.1).1, hua]
+
+theorem classification (cur cells : Dict) :
+    let gone := cur.filter fun e => ¬ cells.any (·.1 = e.1)
+    let new := cells.filter fun e => ¬ cur.any (·.1 = e.1)
+    (∀ a ∈ (diffCells true cur cells).1, ¬ gone.any (fun g => g.2.rowid = a.rowid)) ∧
+    (∀ d ∈ (diffCells true cur cells).2.2, ¬ new.any (fun n => n.2.rowid = d.rowid)) ∧
+    (∀ u ∈ (diffCells true cur cells).2.1, gone.any (fun g => g.2.rowid = u.rowid) ∧ new.any (fun n => n.2 = u)) := by
+  intro gone new
+  have hg : gone = goneL cur cells := rfl
+  have hw : new = newL cur cells := rfl
+  rw [diffCells_true, hg, hw]
+  simp only [List.mem_map, List.any_eq_true, decide_eq_true_eq, not_exists, not_and,
+    forall_exists_index, and_imp]
+  refine ⟨?_, ?_, ?_⟩
+  · rintro _ a ha rfl g hg hga
+    have ha' := mem_addedL.1 ha
+    exact ha'.2 a (mem_updatedL.2 ⟨ha'.1, g, hg, hga⟩) rfl
+  · rintro _ d hd rfl n hn
+    exact (mem_deletedL.1 hd).2 n hn
+  · rintro _ u hu rfl
+    have hu' := mem_updatedL.1 hu
+    exact ⟨hu'.2, u, hu'.1, rfl⟩
+
+/-- `classification` stated without decidable equality on `Cell` (third conjunct uses `∃ … ∈ new`
+instead of `new.any (· = u)`): the form to use if the `DecidableEq Cell` instance of
+Proofs/HistoryDefs.lean is not wanted. -/
+theorem classification_partial (cur cells : Dict) :
+    let gone := cur.filter fun e => ¬ cells.any (·.1 = e.1)
+    let new := cells.filter fun e => ¬ cur.any (·.1 = e.1)
+    (∀ a ∈ (diffCells true cur cells).1, ¬ gone.any (fun g => g.2.rowid = a.rowid)) ∧
+    (∀ d ∈ (diffCells true cur cells).2.2, ¬ new.any (fun n => n.2.rowid = d.rowid)) ∧
+    (∀ u ∈ (diffCells true cur cells).2.1,
+      gone.any (fun g => g.2.rowid = u.rowid) ∧ ∃ n ∈ new, n.2 = u) := by
+  intro gone new
+  obtain ⟨h1, h2, h3⟩ := classification cur cells
+  refine ⟨h1, h2, fun u hu => ⟨(h3 u hu).1, ?_⟩⟩
+  obtain ⟨n, hn, hnu⟩ := List.any_eq_true.1 (h3 u hu).2
+  exact ⟨n, hn, by simpa using hnu⟩
+
+theorem deleted_spec (cur cells : Dict) (d : Cell) :
+    d ∈ (diffCells true cur cells).2.2 ↔
+      ∃ e ∈ cur, e.2 = d ∧ ¬ cells.any (fun x => x.1 = e.1) ∧
+        ¬ (cells.filter fun x => ¬ cur.any (·.1 = x.1)).any (fun n => n.2.rowid = d.rowid) := by
+  have hw : (cells.filter fun x => ¬ cur.any (·.1 = x.1)) = newL cur cells := rfl
+  rw [diffCells_true, hw]
+  simp only [List.mem_map, List.any_eq_true, decide_eq_true_eq, not_exists, not_and]
+  constructor
+  · rintro ⟨e, he, rfl⟩
+    have he' := mem_deletedL.1 he
+    have hg := mem_goneL.1 he'.1
+    exact ⟨e, hg.1, rfl, hg.2, he'.2⟩
+  · rintro ⟨e, he, rfl, hk, hr⟩
+    exact ⟨e, mem_deletedL.2 ⟨mem_goneL.2 ⟨he, hk⟩, hr⟩, rfl⟩
+
+theorem filter_self_none (cells : Dict) :
+    (cells.filter fun e => ¬ cells.any (·.1 = e.1)) = [] := by
+  rw [List.filter_eq_nil_iff]
+  intro e he
+  simp only [List.any_eq_true, decide_eq_true_eq, not_exists, not_and]
+  exact fun h => h e he rfl
+
+theorem unchanged_reports_nothing (cells : Dict) (isTable : Bool) :
+    diffCells isTable cells cells = ([], [], []) := by
+  cases isTable
+  · simp only [diffCells, filter_self_none]; rfl
+  · simp only [diffCells, filter_self_none]; rfl
+
+theorem index_diff (cur cells : Dict) :
+    diffCells false cur cells =
+      ((cells.filter fun e => ¬ cur.any (·.1 = e.1)).map (·.2), [],
+       (cur.filter fun e => ¬ cells.any (·.1 = e.1)).map (·.2)) := rfl
+
+
+/-- every reported added/updated cell is the cell of a new entry of `cells` -/
+theorem mem_AU {cur cells : Dict} {x : Cell}
+    (hx : x ∈ (addedL cur cells).map (·.2) ++ (updatedL cur cells).map (·.2)) :
+    ∃ e ∈ newL cur cells, e.2 = x := by
+  rcases List.mem_append.1 hx with h | h
+  · obtain ⟨e, he, rfl⟩ := List.mem_map.1 h
+    exact ⟨e, (mem_addedL.1 he).1, rfl⟩
+  · obtain ⟨e, he, rfl⟩ := List.mem_map.1 h
+    exact ⟨e, (mem_updatedL.1 he).1, rfl⟩
+
+theorem replay_step (cur cells : Dict) (hc : DictOK cur) (hn : DictOK cells)
+    (hd : ∀ e1 ∈ cur, ∀ e2 ∈ cells, e1.1 = e2.1 → e1.2.rowid = e2.2.rowid) (r : Int) :
+    applyCommit (stateOf cur) (diffCells true cur cells).1 (diffCells true cur cells).2.1
+        (diffCells true cur cells).2.2 r
+      = (match stateOf cells r with
+         | some c => if cur.any (fun e => e.1 = c.digest) then stateOf cur r else some c
+         | none => none) := by
+  rw [diffCells_true]
+  simp only [applyCommit]
+  cases hs : stateOf cells r with
+  | none =>
+    have hnone := stateOf_eq_none.1 hs
+    have hf : ((addedL cur cells).map (·.2) ++ (updatedL cur cells).map (·.2)).find?
+        (fun c => c.rowid = some r) = none := by
+      rw [List.find?_eq_none]
+      intro x hx hxr
+      obtain ⟨e, he, rfl⟩ := mem_AU hx
+      exact hnone e (mem_newL.1 he).1 (by simpa using hxr)
+    rw [hf]
+    simp only
+    cases hcur : stateOf cur r with
+    | none => simp
+    | some c1 =>
+      obtain ⟨e1, he1, -, hr1⟩ := stateOf_some_mem hcur
+      have hgone : e1 ∈ goneL cur cells := by
+        refine mem_goneL.2 ⟨he1, fun x hx hk => ?_⟩
+        exact hnone x hx (by rw [← hd e1 he1 x hx hk.symm, hr1])
+      have hdel : e1 ∈ deletedL cur cells := by
+        refine mem_deletedL.2 ⟨hgone, fun n hnn hnr => ?_⟩
+        exact hnone n (mem_newL.1 hnn).1 (by rw [hnr, hr1])
+      have : ((deletedL cur cells).map (·.2)).any (fun c => c.rowid = some r) = true := by
+        rw [List.any_eq_true]
+        exact ⟨e1.2, List.mem_map_of_mem hdel, by simpa using hr1⟩
+      rw [this]; rfl
+  | some c =>
+    obtain ⟨e2, he2, rfl, hr2⟩ := stateOf_some_mem hs
+    simp only
+    rw [← hn.key_is_digest e2 he2]
+    -- any reported added/updated cell with rowid r is e2's cell
+    have huniq : ∀ x ∈ (addedL cur cells).map (·.2) ++ (updatedL cur cells).map (·.2),
+        (decide (x.rowid = some r)) = true → x = e2.2 ∧ e2 ∈ newL cur cells := by
+      intro x hx hxr
+      obtain ⟨e, he, rfl⟩ := mem_AU hx
+      have : e = e2 := inj_of_nodup_map _ hn.rowids_nodup e (mem_newL.1 he).1 e2 he2
+        (by rw [hr2]; simpa using hxr)
+      exact ⟨by rw [this], this ▸ he⟩
+    by_cases hk : cur.any (fun e => e.1 = e2.1) = true
+    · rw [if_pos hk]
+      obtain ⟨e1, he1, hk1⟩ := List.any_eq_true.1 hk
+      have hk1 : e1.1 = e2.1 := by simpa using hk1
+      have hr1 : e1.2.rowid = some r := by rw [hd e1 he1 e2 he2 hk1, hr2]
+      have hf : ((addedL cur cells).map (·.2) ++ (updatedL cur cells).map (·.2)).find?
+          (fun c => c.rowid = some r) = none := by
+        rw [List.find?_eq_none]
+        intro x hx hxr
+        exact (mem_newL.1 (huniq x hx hxr).2).2 e1 he1 hk1
+      rw [hf]
+      simp only
+      have : ((deletedL cur cells).map (·.2)).any (fun c => c.rowid = some r) = false := by
+        rw [List.any_eq_false]
+        intro x hx hxr
+        obtain ⟨e, he, rfl⟩ := List.mem_map.1 hx
+        have hg := mem_goneL.1 (mem_deletedL.1 he).1
+        have : e = e1 := inj_of_nodup_map _ hc.rowids_nodup e hg.1 e1 he1
+          (by rw [hr1]; simpa using hxr)
+        exact hg.2 e2 he2 (by rw [this, hk1])
+      rw [this]; rfl
+    · rw [if_neg hk]
+      have hnew : e2 ∈ newL cur cells := mem_newL.2 ⟨he2, not_any_key.1 hk⟩
+      have hmem : e2.2 ∈ (addedL cur cells).map (·.2) ++ (updatedL cur cells).map (·.2) := by
+        rcases new_split hn hnew with h | h
+        · exact List.mem_append_left _ (List.mem_map_of_mem h)
+        · exact List.mem_append_right _ (List.mem_map_of_mem h)
+      rw [find?_eq_some_of_unique hmem (by simpa using hr2) (fun x hx hxr => (huniq x hx hxr).1)]
+
 end SqliteDissect.Proofs.History
